@@ -46,6 +46,36 @@ def _init():
 
 
 def _job(a):
+    """one (contract, shape) job in a forked child of the pool worker: whatever module-level state the code under
+    verification leaves behind (caches, edited tables) dies with the job, so every job starts from the state right after import"""
+    import pickle
+
+    r, w = os.pipe()
+    pid = os.fork()
+    if pid == 0:
+        os.close(r)
+        code = 0
+        try:
+            data = pickle.dumps(_job_inner(a))
+        except BaseException:
+            import traceback
+
+            data = pickle.dumps(dict(contract=a[0], shape=a[1], paths=0, clauses={}, refuted=[], undecided=[], exceptions=[], stub_calls={}, pre_false=0, t=0, stats={}, crash=traceback.format_exc()[-1500:]))
+        try:
+            with os.fdopen(w, "wb") as f:
+                f.write(data)
+        finally:
+            os._exit(code)
+    os.close(w)
+    with os.fdopen(r, "rb") as f:
+        data = f.read()
+    os.waitpid(pid, 0)
+    if not data:
+        return dict(contract=a[0], shape=a[1], paths=0, clauses={}, refuted=[], undecided=[], exceptions=[], stub_calls={}, pre_false=0, t=0, stats={}, crash="job process died without a result")
+    return pickle.loads(data)
+
+
+def _job_inner(a):
     from pyvc.contract import verify_job
     import signal
 
@@ -81,15 +111,33 @@ _out = sys.stdout; sys.stdout = open("/dev/null", "w")  # the library prints whi
 import importlib, props
 for m in props.CONTRACT_MODULES: importlib.import_module(m)
 from pyvc.contract import replay, shape_from_json
+import os
 out = []
 for item in json.load(sys.stdin):
-    rnd = random.Random(item["seed"]) if item.get("seed") is not None else None
+    # each item in a forked child: module-level state left behind by one evaluation must not leak into the next
+    rfd, wfd = os.pipe()
+    pid = os.fork()
+    if pid == 0:
+        os.close(rfd)
+        rnd = random.Random(item["seed"]) if item.get("seed") is not None else None
+        try:
+            r = replay(item["contract"], shape_from_json(item["shape"]), item.get("witness") or {}, rnd)
+        except BaseException as e:
+            import traceback
+            r = dict(crash=traceback.format_exc()[-800:], failed=[], checked=[], exception=None, drawn={})
+        try:
+            with os.fdopen(wfd, "w") as f:
+                json.dump(r, f, default=str)
+        finally:
+            os._exit(0)
+    os.close(wfd)
+    with os.fdopen(rfd) as f:
+        txt = f.read()
+    os.waitpid(pid, 0)
     try:
-        r = replay(item["contract"], shape_from_json(item["shape"]), item.get("witness") or {}, rnd)
-    except BaseException as e:
-        import traceback
-        r = dict(crash=traceback.format_exc()[-800:], failed=[], checked=[], exception=None, drawn={})
-    out.append(r)
+        out.append(json.loads(txt))
+    except Exception:
+        out.append(dict(crash="native evaluation died without a result", failed=[], checked=[], exception=None, drawn={}))
 json.dump(out, _out)
 """
 
